@@ -74,8 +74,17 @@ def _GenerateConstant(cv: LinearIR.ConstantValue) -> WebAssembly.Instruction:
     t = cv.Type
     if t.IsScalar():
         if isinstance(t, LinearIR.IntegerType):
+            value = cv.Value
+            if t.Unsigned and 0x80000000 <= value <= 0xFFFFFFFF:
+                # i32.const takes the two's complement bit pattern
+                value -= 0x100000000
+            if not -0x80000000 <= value <= 0x7FFFFFFF:
+                raise RuntimeError(
+                    f"Unsupported constant for WebAssembly: {cv.Value} "
+                    f"does not fit into a 32-bit {t}"
+                )
             return WebAssembly.Instruction(
-                WebAssembly.opcodes["i32.const"], (cv.Value,)
+                WebAssembly.opcodes["i32.const"], (value,)
             )
         elif isinstance(t, LinearIR.FloatType):
             return WebAssembly.Instruction(
